@@ -82,8 +82,33 @@ def run_cases(exe, drv, cases, B=40):
     return results
 
 
+MSAN_FLAGS = ["-O1", "-g", "-fsanitize=memory", "-fno-omit-frame-pointer", "-fsanitize-memory-track-origins=1"]
+
+
+def run_msan(exe, cases, B=40):
+    """second build of the same harness under MemorySanitizer: the scripted transport formats every byte it is handed,
+    so a byte that stems from uninitialised memory (C14) or a decision taken on one (C04) stops the run.
+    returns list of (case, rc, stderr)"""
+    bad = []
+    for b0 in range(0, len(cases), B):
+        batch = cases[b0:b0 + B]
+        ops = [o for c in batch for o in c.ops]
+        o, rc, err = vlib.run_lines(exe, ops, timeout=300)
+        if rc != 0:
+            for c in batch:
+                o1, rc1, err1 = vlib.run_lines(exe, c.ops, timeout=120)
+                if rc1 != 0:
+                    bad.append((c, rc1, err1))
+    return bad
+
+
 def crash_signature(err):
     import re
+    m = re.search(r"MemorySanitizer: ([a-zA-Z-]+)[^\n]*\n(?:.*\n)*?\s+#\d+ \S+ in (rtr_\w+|tr_\w+|pfx_\w+|spki_\w+|lrtr_\w+)", err)
+    if m:
+        return "msan:%s in %s" % (m.group(1), m.group(2))
+    if "MemorySanitizer" in err:
+        return "msan:use-of-uninitialized-value"
     m = re.search(r"Assertion `([^']*)' failed", err)
     if m:
         return "assert:" + m.group(1)
@@ -132,13 +157,33 @@ def fsm_oracle(c, rep):
                 fails.append(("C07", "rtr_stop altered records of other sockets"))
         # convergence (C08): the faults are followed by a cache that answers correctly
         if c.meta.get("good_tail") and len(sidx) >= 2 and len(didx) >= 1:
-            sh = rtroracle.parse_show(rep[sidx[1]][0])
             pf0, ks0 = rtroracle.parse_dump(*rep[didx[0]])
             want_p = sorted(rtrgen.rec_str((p[0], p[1], p[2], p[3], p[4], 0)) for p in c.meta["cache_p"])
             want_k = sorted(rtrgen.key_str((k[0], k[1], k[2], 0)) for k in c.meta["cache_k"])
-            established = any(e[0] == "state" and e[1] == "ESTABLISHED" for e in tr.events[-40:]) or sh["lu"] != 0
-            if rtroracle.own(pf0) != want_p or rtroracle.own(ks0) != want_k:
-                fails.append(("C08", "after the faults ended and the cache answered %d queries correctly the client's records differ from the cache's data set" % c.meta["good_tail"]))
+            v0 = rtroracle.parse_show(rep[sidx[1]][0])["ver"] == 0
+            # a version-0 session carries no router keys: keys learned before a downgrade can neither be confirmed nor withdrawn
+            states = [e for e in tr.events if e[0] == "state"]
+            # protocol time at which the faults ended = clock when the first byte of the good tail was read
+            # (the clock is printed with state changes and opens: the first one after that byte)
+            cum, t_good, reached = 0, None, False
+            for e in tr.events:
+                if e[0] in ("state", "open") and e[2] is not None and reached and t_good is None:
+                    t_good = e[2]
+                elif e[0] == "rx":
+                    cum += len(e[1])
+                    if cum > c.meta.get("good_from", 0):
+                        reached = True
+            if not states or states[-1][1] != "ESTABLISHED":
+                fails.append(("C08", "after the faults ended the cache answered up to %d queries correctly but the client is not ESTABLISHED (%s)" % (
+                    c.meta["good_tail"], states[-1][1] if states else "no state")))
+            elif rtroracle.own(pf0) != want_p or (not v0 and rtroracle.own(ks0) != want_k):
+                fails.append(("C08", "after the faults ended and the cache answered correctly the client is ESTABLISHED but its records differ from the cache's data set"))
+            elif t_good is not None and states[-1][2] is not None:
+                iv = [c.meta["refresh"], c.meta["expire"], c.meta["retry"]]
+                bound = max(iv[0], 3600) + max(iv[1], 7200) + 8 * max(iv[2], 600) + 8 * 60
+                if states[-1][2] - t_good > bound:
+                    fails.append(("C08", "convergence took %d s of protocol time after the faults ended (bound refresh+expire+8*retry+8*60 = %d)" % (
+                        states[-1][2] - t_good, bound)))
     except Exception as ex:
         return [("ORACLE", "oracle exception %r" % (ex,))], None
     return fails, tr
@@ -209,12 +254,23 @@ def run(pid, tier):
                 fsm_cases.append(c)
     for i in range(n_fsm):
         if i % 4 == 3:
-            fsm_cases.append(rtrgen.gen_fsm_case(rf, run_model, nsteps=rf.randrange(1, 6), good_tail=6))
+            fsm_cases.append(rtrgen.gen_fsm_case(rf, run_model, nsteps=rf.randrange(1, 6), good_tail=16))
         else:
             fsm_cases.append(rtrgen.gen_fsm_case(rf, run_model))
     allcases = cases + [v for _, v in variants] + fsm_cases
     fsm_ids = set(id(c) for c in fsm_cases)
     results = run_cases(exe, drv, allcases)
+    msan_bad, msan_n = [], 0
+    if pid in ("C04", "C14"):
+        mexe, mlog = vlib.build_harness("rtr_msan", ["rtr_harness.c"], exclude=EXCLUDE, flags=MSAN_FLAGS, link=["-fsanitize=memory"],
+                                        cc="clang-14", variant="msan")
+        if mexe is None:
+            rep.build_log = mlog
+            vlib.proof_failure(rep, "MemorySanitizer build of the rtr harness failed")
+        else:
+            msan_cases = cases + [v for _, v in variants] + (fsm_cases if tier == "thorough" else fsm_cases[:60])
+            msan_n = len(msan_cases)
+            msan_bad = run_msan(mexe, msan_cases)
     byid = {id(c): (irep, mrep, crash) for (c, irep, mrep, crash) in results}
     stats = {"cases": len(allcases), "corpus": ncorpus, "mut": {}, "ret": {}, "states": {}, "errcodes": {}, "crashes": 0,
              "rechunk_pairs": len(variants)}
@@ -277,7 +333,19 @@ def run(pid, tier):
     rep.assumptions = ["thread cancellation is not exercised (the script ends by a stop request observed in recv)",
                        "the transport delivers at least one byte per successful recv/send call"]
 
+    rep.cov["msan_runs"] = msan_n
+    conv_divs = []
+    if pid == "C14":
+        import pduconvcheck
+        ev, conv_divs = pduconvcheck.run_tie(rep)
+        rep.cov["evaluations"] = rep.cov.get("evaluations", 0) + ev
     mine = [(c, f) for (c, f) in fails if f[0] in (pid, "ORACLE")]
+    for c, rc1, err1 in msan_bad[:2]:
+        sig = crash_signature(err1)
+        rep.violation("uninit", "# uninitialised memory is used or sent (MemorySanitizer build of the harness, rc=%s): %s\n# mutation: %s\n%s\n"
+                      "--- stderr (tail) ---\n%s\n" % (rc1, sig, c.meta.get("mut"), "\n".join(c.ops),
+                                                        "\n".join(l for l in err1.splitlines() if "RTR Socket" not in l)[-3000:]),
+                      signature="%s/%s" % (pid, sig))
     for c, (rc1, err1, o1) in crashes[:3]:
         if pid not in ("C04",) and tier == "quick" and pid != "C03":
             pass
@@ -296,12 +364,20 @@ def run(pid, tier):
             break
         rep.violation("oracle%d" % len(seen), "# property %s fails on the implementation: %s\n# mutation: %s\n%s\n" % (
             p, msg, c.meta.get("mut"), "\n".join(c.ops)), signature="%s/%s" % (p, key))
-    if divergences and not mine and not crashes:
+    for d in conv_divs[:2]:
+        if d.get("kind") in ("roundtrip", "crash"):
+            rep.violation("conv_" + d["kind"], "# byte-order conversion: %s\n# the C functions rtr_pdu_to_host_byte_order / rtr_pdu_to_network_byte_order on\n%s\nimpl : %s\nmodel: %s\n" % (
+                d.get("kind"), d.get("op"), d.get("impl"), d.get("model")), signature="C14/conv_" + d["kind"])
+    if any(d.get("kind") in ("model", "build") for d in conv_divs) and not any(d.get("kind") in ("roundtrip", "crash") for d in conv_divs):
+        d = [x for x in conv_divs if x.get("kind") in ("model", "build")][0]
+        rep.build_log = "byte-order tie: %s\nop   : %s\nimpl : %s\nmodel: %s" % (d.get("kind"), d.get("op"), str(d.get("impl"))[:600], str(d.get("model"))[:600])
+        vlib.proof_failure(rep, "correspondence pduconv (model RtrModel.PduConv vs rtr_pdu_*_byte_order in packets.c) diverges")
+    if divergences and not mine and not crashes and not msan_bad:
         c, d, a, b = divergences[0]
         rep.build_log = "%d of %d cases diverge; first: mutation %s, reply line %d\n impl : %s\n model: %s\nops:\n%s" % (
             len(divergences), len(allcases), c.meta.get("mut"), d, a[:400], b[:400], "\n".join(c.ops))
         vlib.proof_failure(rep, "correspondence rtr (model RtrModel.Rtr vs packets.c/rtr.c/transport.c) diverges")
-    if not proved and not mine and not crashes and not divergences:
+    if not proved and not mine and not crashes and not divergences and not msan_bad:
         vlib.proof_failure(rep, "\n".join(t for t, ok in rep.obligations.items() if not ok))
     rep.extra = {"divergences": len(divergences), "fails": len(fails)}
     return rep.finish()
